@@ -78,8 +78,9 @@ def long_cases(rnd, quick):
     add("real", REAL_BS, 65536)
     add("real", REAL_BS, 65537)
     # one fault at the blocks around the wrap: block 65536 has seq 65535, block 65537 seq 0
-    for k in STREAM_FAULTS:
-        for at in (65536, 65537, 65538):
+    # (sequence-related kinds at both, the others at one of them)
+    for i, k in enumerate(STREAM_FAULTS):
+        for at in ((65536, 65537) if k in ("Dup", "Drop", "Swap") else (65536 + i % 2,)):
             add("script", 1, 65540, tail=[{"a": "Fault", "k": k}], burst=at - 1)
     for w in ("from", "sid"):
         add("script", 1, 65540, tail=[{"a": "Inject", "w": w}], burst=65536)
@@ -103,6 +104,41 @@ def short(b):
         parts.append({"RDeliver": "R", "SDeliver": "S", "Offer": "O"}.get(a, a) +
                      ("(" + str(s.get("k", s.get("w"))) + ")" if a in ("Fault", "Inject", "Burst") else ""))
     return f"{b.get('sender', 'real')}/bs={b.get('bs')}/size={b.get('size')}/n={b['n']}:" + ",".join(parts)
+
+
+def validate_in_chunks(chk, trace, max_lines=60000):
+    """TLC reads a whole trace file into memory: validate executions in groups of <= max_lines lines."""
+    chunks, cur, n = [], [], 0
+    with open(trace) as f:
+        for line in f:
+            if line.startswith('{"') and '"e":"Reset"' in line and n >= max_lines:
+                chunks.append(cur)
+                cur, n = [], 0
+            cur.append(line)
+            n += 1
+    if cur:
+        chunks.append(cur)
+    total = {"cases": 0, "lines": 0, "viol": [], "ndiv": 0, "divs": [], "faulted": 0, "clean": 0, "wall_s": 0.0, "chunks": len(chunks)}
+    off = 0
+    for i, ch in enumerate(chunks):
+        path = chk.path(f"trace-{i:03d}.ndjson")
+        with open(path, "w") as f:
+            f.writelines(ch)
+        s = vf.tlc_trace("IbbTrace.tla", "IbbTrace.cfg", path, tag=f"IbbTrace-{i:03d}")
+        for v in s["viol"]:
+            v["line"] += off
+        for d in s["divs"]:
+            d["line"] += off
+        for k in ("cases", "lines", "ndiv", "faulted", "clean", "wall_s"):
+            total[k] += s[k]
+        total["viol"] += s["viol"]
+        total["divs"] += s["divs"]
+        off += len(ch)
+        if len(chunks) > 1:
+            import os
+            os.remove(path)
+    total["wall_s"] = round(total["wall_s"], 2)
+    return total
 
 
 def run(chk, replay=None):
@@ -131,9 +167,9 @@ def run(chk, replay=None):
         extra = []
         if not quick:
             tour, st4 = vf.tlc_gen("IbbGen.tla", "IbbGenTour2.cfg")
-            st4["sampled"] = min(len(tour), 4000)
+            st4["sampled"] = min(len(tour), 2500)
             tour = rnd.sample(tour, st4["sampled"])
-            sim, st5 = vf.tlc_simulate("IbbGen.tla", "IbbGenTour2.cfg", num=3000, depth=40, seed=chk.seed)
+            sim, st5 = vf.tlc_simulate("IbbGen.tla", "IbbGenTour2.cfg", num=1500, depth=40, seed=chk.seed)
             extra = vf.maximal_behaviours(tour + sim)
             chk.cov["generation"].update({"tour_two_faults": st4, "simulate_two_faults": st5})
         execs = concretise(vf.maximal_behaviours(one + inj + mix), rnd, 0.5 if quick else 1.0) + concretise(extra, rnd, 1.0)
@@ -156,7 +192,7 @@ def run(chk, replay=None):
         idx = int(last[1:]) - 1 if last else 0
         crashed = (execs[idx] if execs else None, vf.san_signature(r))
     # 4. trace validation
-    s = vf.tlc_trace("IbbTrace.tla", "IbbTrace.cfg", trace)
+    s = validate_in_chunks(chk, trace)
     applied = collections.Counter()
     for lines in cases.values():
         for ln in lines:
@@ -167,6 +203,7 @@ def run(chk, replay=None):
     chk.cov["traces_validated_against_impl"] = s["cases"]
     chk.cov["trace_lines"] = s["lines"]
     chk.cov["trace_wall_s"] = s["wall_s"]
+    chk.cov["trace_chunks"] = s["chunks"]
     chk.cov["executions_with_stream_fault"] = s["faulted"]
     chk.cov["executions_without_stream_fault"] = s["clean"]
     chk.cov["faults_applied_by_kind"] = dict(sorted(applied.items()))
